@@ -57,10 +57,12 @@ func (c *Ctx) reachFrom(root *ssa.Function) map[*ssa.Function]bool {
 func (c *Ctx) threadRoots() map[string]*ssa.Function {
 	roots := map[string]*ssa.Function{}
 	for _, g := range c.Roles().GoEntries {
-		if t := g.Common().StaticCallee(); t != nil {
-			roots["go:"+t.Name()] = t
-		} else if cl := closureOf(g.Common()); cl != nil {
+		if cl := closureOf(g.Common()); cl != nil {
 			roots["go:"+cl.Name()] = cl
+			continue
+		}
+		for _, t := range c.goTargets(g) {
+			roots["go:"+t.Name()] = t
 		}
 	}
 	for _, fn := range c.P.Funcs {
@@ -111,7 +113,40 @@ func checkC17(c *Ctx) {
 	ngo := 0
 	inLoop := false
 	for _, g := range r.GoEntries {
-		if g.Common().StaticCallee() == r.Processor {
+		ts := c.goTargets(g)
+		for _, t := range ts {
+			if t != r.Processor {
+				continue
+			}
+			if g.Common().StaticCallee() == nil {
+				// started from a table of functions walked by a loop: once per slot holding the processor
+				k := 0
+				for _, b := range g.Parent().Blocks {
+					for _, in := range b.Instrs {
+						if mc, ok := in.(*ssa.MakeClosure); ok {
+							if w, ok := mc.Fn.(*ssa.Function); ok && strings.HasSuffix(w.Name(), "$bound") && boundMethod(w) == r.Processor {
+								k++
+								if ir.InnermostLoop(ir.Loops(g.Parent()), b) != nil {
+									inLoop = true
+								}
+							}
+						}
+					}
+				}
+				ngo += k
+				// the table must be a local array walked once: the loop holding the go statement is not nested
+				if l := ir.InnermostLoop(ir.Loops(g.Parent()), g.Block()); l != nil {
+					for _, o := range ir.Loops(g.Parent()) {
+						if o.Header != l.Header && o.Blocks[l.Header] {
+							inLoop = true
+						}
+					}
+					if !rangesOverLocalArray(l) {
+						inLoop = true
+					}
+				}
+				continue
+			}
 			ngo++
 			if ir.InnermostLoop(ir.Loops(g.Parent()), g.Block()) != nil {
 				inLoop = true
@@ -340,4 +375,24 @@ func (c *Ctx) ringSideOwnership() {
 	}
 	c.R.Count("ring method call sites outside buffer.go", n)
 	c.R.Floor("ring method call sites outside buffer.go", n, 8)
+}
+
+// rangesOverLocalArray: the loop's bound is the constant length of a local array (a range over `[...]T{...}`).
+func rangesOverLocalArray(l *ir.Loop) bool {
+	for _, in := range l.Header.Instrs {
+		iff, ok := in.(*ssa.If)
+		if !ok {
+			continue
+		}
+		b, ok := iff.Cond.(*ssa.BinOp)
+		if !ok {
+			return false
+		}
+		for _, side := range []ssa.Value{b.X, b.Y} {
+			if k, ok := side.(*ssa.Const); ok && k.Value != nil {
+				return true
+			}
+		}
+	}
+	return false
 }
